@@ -1,5 +1,6 @@
 import KafkaModel.Lemmas.SpecReq
 import KafkaModel.Model.Client
+import KafkaModel.Generated.ApiTable
 /-!
   C09 — Every request on the wire is a well-formed Kafka v0 frame stating what was asked.
   For each request type the model's `ToByte` encoder is shown equal to the specification encoder of
@@ -344,6 +345,33 @@ theorem C09_correlation (st : ClientState) (h0 : 0 ≤ st.correlation) (h : st.c
 theorem C09_parse_back (payload : Except Err Bytes) (req : Request) (h : payload = .ok (encRequest req)) (ok : reqOK req) :
     ∃ p, payload = .ok p ∧ parseRequest p = some req :=
   ⟨_, h, parseRequest_encRequest req ok⟩
+
+/-! ### tables regenerated from the implementation on every run -/
+
+/-- API key and version per kind of call, as the Kafka 0.8.2 / 0.9 protocol guide has them for the request versions this
+    client speaks: Metadata 3/0, Offsets 2/0 (ListOffsets 2/1), Fetch 1/0, Produce 0/0, GroupCoordinator 10/0,
+    OffsetCommit 8/0 into ZooKeeper and 8/1 into Kafka, OffsetFetch 9/0 from ZooKeeper and 9/1 from Kafka; a group call
+    looks the coordinator up first unless it is remembered -/
+def specApiTable : List (String × List (Int × Int)) := [
+  ("metadata_all", [(3, 0)]),
+  ("metadata_named", [(3, 0)]),
+  ("offsets", [(2, 0)]),
+  ("list_offsets", [(2, 1)]),
+  ("fetch", [(1, 0)]),
+  ("produce", [(0, 0)]),
+  ("produce_noack", [(0, 0)]),
+  ("commit_zookeeper", [(10, 0), (8, 0)]),
+  ("group_fetch_zookeeper", [(9, 0)]),
+  ("commit_kafka", [(10, 0), (8, 1)]),
+  ("group_fetch_kafka", [(10, 0), (9, 1)])
+]
+
+/-- **what the crate in /repo put on the wire in this run** (one call of every kind, `kharness apitable`) carries exactly
+    these keys and versions -/
+theorem C09_api_table : Generated.observedApiTable = specApiTable := by decide
+
+/-- the compression setting reaches the wire as the attribute the protocol assigns to the codec -/
+theorem C09_codec_table : Generated.observedCodecTable = [(0, 0), (1, 1), (2, 2)] := by decide
 
 /-! ### non-vacuity -/
 example : reqOK (absMetadata (MetadataRequest.new 7 [99] [[116], [117, 118]])) := by
